@@ -1,7 +1,7 @@
 (** Proofs about Model/Diffusion.v: maximum principle for Diffusion and Dirichlet, clamping,
     seed forms, uniqueness of the harmonic extension, non-expansiveness of the Dirichlet step. *)
 From SKN Require Import Base.Util Model.Diffusion.
-From Coq Require Import Qabs Qreduction Lqa Psatz.
+From Coq Require Import Qabs Qreduction Qround Lqa Psatz.
 Close Scope Q_scope.
 Open Scope nat_scope.
 
@@ -963,4 +963,329 @@ Proof.
   intros W G NS Hi F.
   apply (dirichlet_fit_bounds n_iter m values vr vc init fb adj seeds bip out _ _ W G NS); auto.
   intros x Hx H0. apply seed_min_max_bound; assumption.
+Qed.
+
+(** * Convergence of the Dirichlet iteration to the harmonic solution *)
+
+Fixpoint qpow (x : Q) (m : nat) : Q := match m with O => 1%Q | S m' => (x * qpow x m')%Q end.
+
+Lemma qpow_range x m : (0 <= x <= 1)%Q -> (0 <= qpow x m <= 1)%Q.
+Proof. intros H. induction m as [|m IH]; simpl; [lra|nra]. Qed.
+
+Lemma qpow_pos x m : (0 < x)%Q -> (0 < qpow x m)%Q.
+Proof. intros H. induction m as [|m IH]; simpl; [lra|nra]. Qed.
+
+(** [near L i]: node i is within L hops (along edges of positive weight) of the boundary. *)
+Fixpoint near (adj : list wrow) (border : list bool) (L : nat) (i : nat) : Prop :=
+  match L with
+  | O => nthb border i = true
+  | S L' => near adj border L' i \/ exists j, edge adj i j /\ near adj border L' j
+  end.
+
+Lemma near_le adj border L L' i : L <= L' -> near adj border L i -> near adj border L' i.
+Proof. intros H N. induction H as [|L' H IH]; [exact N|]. left. exact IH. Qed.
+
+Lemma path_near adj border i b :
+  path adj i b -> nthb border b = true -> exists L, near adj border L i.
+Proof.
+  intros P Hb. induction P as [i|i j k E P IH].
+  - exists 0. exact Hb.
+  - destruct (IH Hb) as [L HL]. exists (S L). right. exists j. split; assumption.
+Qed.
+
+Lemma all_near adj border :
+  reaches_border adj border -> exists L, forall i, i < length adj -> near adj border L i.
+Proof.
+  intros RB.
+  assert (H : forall m, m <= length adj -> exists L, forall i, i < m -> near adj border L i).
+  { induction m as [|m IH]; intros Hm.
+    - exists 0. intros i Hi. lia.
+    - destruct IH as [L HL]; [lia|].
+      destruct (RB m ltac:(lia)) as [b [_ [Bb P]]].
+      destruct (path_near adj border m b P Bb) as [L2 HL2].
+      exists (Nat.max L L2). intros i Hi.
+      destruct (Nat.eq_dec i m) as [E|E].
+      + subst i. apply (near_le adj border L2); [lia|exact HL2].
+      + apply (near_le adj border L); [lia|]. apply HL. lia. }
+  apply (H (length adj)). lia.
+Qed.
+
+Lemma reaches_no_free_sink adj border :
+  wf_rows (length adj) adj -> reaches_border adj border -> no_free_sink adj border.
+Proof.
+  intros W RB i Hi B. destruct (RB i Hi) as [b [_ [Bb P]]].
+  destruct P as [i|i j k [w [Hin Hw]] P]; [congruence|].
+  apply (row_norm_pos_of_entry _ j w); [|exact Hin|exact Hw].
+  intros e He. eapply wf_rows_wrow_of; eassumption.
+Qed.
+
+(** A positive lower bound on all positive transition probabilities. *)
+Lemma list_pos_min (l : list Q) :
+  (forall x, In x l -> (0 < x)%Q) -> exists dl, (0 < dl <= 1)%Q /\ forall x, In x l -> (dl <= x)%Q.
+Proof.
+  induction l as [|a t IH]; intros H.
+  - exists 1%Q. split; [lra|]. intros x [].
+  - destruct IH as [dl [Hd Hall]]; [intros x Hx; apply H; right; exact Hx|].
+    assert (Ha : (0 < a)%Q) by (apply H; left; reflexivity).
+    destruct (Qlt_le_dec a dl) as [L|L].
+    + exists a. split; [lra|]. intros x [Hx|Hx]; [subst; lra|]. specialize (Hall x Hx). lra.
+    + exists dl. split; [exact Hd|]. intros x [Hx|Hx]; [subst; exact L|auto].
+Qed.
+
+Definition min_prob (adj : list wrow) (dl : Q) : Prop :=
+  (0 < dl <= 1)%Q /\
+  forall i j w, In (j, w) (wrow_of adj i) -> (0 < w)%Q -> (dl <= w / row_norm (wrow_of adj i))%Q.
+
+Lemma min_prob_exists adj : wf_rows (length adj) adj -> exists dl, min_prob adj dl.
+Proof.
+  intros W.
+  set (probs := flat_map (fun r => map (fun e => if Qle_bool (snd e) 0 then 1%Q else snd e) (normalize_row r)) adj).
+  destruct (list_pos_min probs) as [dl [Hd Hall]].
+  { intros x Hx. unfold probs in Hx. apply in_flat_map in Hx. destruct Hx as [r [_ Hx]].
+    apply in_map_iff in Hx. destruct Hx as [e [E _]]. subst x.
+    destruct (Qle_bool (snd e) 0) eqn:B; [lra|].
+    destruct (Qlt_le_dec 0 (snd e)) as [L|L]; [exact L|]. apply Qle_bool_iff in L. congruence. }
+  exists dl. split; [exact Hd|]. intros i j w Hin Hw.
+  assert (Hnorm : (0 < row_norm (wrow_of adj i))%Q).
+  { apply (row_norm_pos_of_entry _ j w); [|exact Hin|exact Hw].
+    intros e He. eapply wf_rows_wrow_of; eassumption. }
+  assert (Hp : (0 < w / row_norm (wrow_of adj i))%Q) by (apply Qlt_shift_div_l; [exact Hnorm|lra]).
+  apply Hall. unfold probs. apply in_flat_map. exists (wrow_of adj i). split; [eapply wrow_of_In; exact Hin|].
+  apply in_map_iff. exists (j, (w / row_norm (wrow_of adj i))%Q). split.
+  - simpl. destruct (Qle_bool (w / row_norm (wrow_of adj i)) 0) eqn:B; [|reflexivity].
+    apply Qle_bool_iff in B. lra.
+  - apply normalize_row_entry; [lra|exact Hin].
+Qed.
+
+(** A convex combination in which one term of weight >= dl is at most c <= d stays below d - dl (d - c). *)
+Lemma convex_small_term n r (U : nat -> Q) (d c dl : Q) e0 :
+  stochastic_row n r ->
+  (forall e, In e r -> (U (fst e) <= d)%Q) ->
+  In e0 r -> (0 <= dl <= snd e0)%Q -> (U (fst e0) <= c)%Q -> (c <= d)%Q ->
+  (sumq (map (fun e => snd e * U (fst e)) r) <= d - dl * (d - c))%Q.
+Proof.
+  intros [Hr Hs] Hle He0 Hdl Hc Hcd.
+  assert (Z : (sumq (map (fun e => snd e * (d - U (fst e))) r) == d - sumq (map (fun e => snd e * U (fst e)) r))%Q).
+  { rewrite (sumq_ext (fun e => snd e * (d - U (fst e))) (fun e => d * snd e - snd e * U (fst e)) r)%Q
+      by (intros x _; lra).
+    rewrite (sumq_sub (fun e => d * snd e) (fun e => snd e * U (fst e)) r)%Q.
+    rewrite (sumq_scale snd d r). rewrite Hs. lra. }
+  assert (G : (snd e0 * (d - U (fst e0)) <= sumq (map (fun e => snd e * (d - U (fst e))) r))%Q).
+  { apply (sumq_ge_term (fun e => snd e * (d - U (fst e)))%Q r e0); [|exact He0].
+    intros x Hx. destruct (Hr x Hx) as [_ Hw]. specialize (Hle x Hx). nra. }
+  assert (T : (dl * (d - c) <= snd e0 * (d - U (fst e0)))%Q) by nra.
+  lra.
+Qed.
+
+Lemma sumq_opp {A} (f : A -> Q) (l : list A) :
+  (sumq (map (fun e => - f e) l) == - sumq (map f l))%Q.
+Proof. induction l as [|a t IH]; simpl; [lra|]. rewrite IH. lra. Qed.
+
+Section Contraction.
+  Context (adj : list wrow) (border : list bool) (temps h : list Q) (dl : Q).
+  Context (W : wf_rows (length adj) adj).
+  Context (NS : no_free_sink adj border).
+  Context (Hh : harmonic adj border temps h).
+  Context (Hdl : min_prob adj dl).
+
+  Let n := length adj.
+  Let T := dirichlet_step (normalize adj) border temps.
+
+  Definition err_bound (d : Q) (k : nat) (v : list Q) : Prop :=
+    forall m i, m < k -> i < n -> near adj border m i ->
+      (Qabs (nthq v i - nthq h i) <= (1 - qpow dl m) * d)%Q.
+
+  Lemma step_err_bound d k v :
+    dist_le n v h d -> err_bound d k v -> err_bound d (S k) (T v).
+  Proof.
+    intros Hd Hb m. destruct Hdl as [Hdl1 Hdl2]. destruct Hh as [Lh Hharm].
+    induction m as [|m IHm]; intros i Hm Hi Hnear.
+    - simpl in Hnear. unfold T. rewrite nth_dirichlet_step by (rewrite normalize_length; exact Hi).
+      rewrite Hnear. specialize (Hharm i Hi). rewrite Hnear in Hharm. rewrite Hharm.
+      setoid_replace (nthq temps i - nthq temps i)%Q with 0%Q by lra.
+      change (Qabs 0)%Q with 0%Q. cbn [qpow]. lra.
+    - pose proof (Hd i Hi) as Hdi.
+      assert (D0 : (0 <= d)%Q) by (pose proof (Qabs_nonneg (nthq v i - nthq h i)); lra).
+      pose proof (qpow_range dl m ltac:(lra)) as Pm.
+      pose proof (qpow_range dl (S m) ltac:(lra)) as PSm. cbn [qpow] in PSm.
+      assert (Pdl : (dl * qpow dl m <= qpow dl m)%Q) by nra.
+      assert (Pd1 : (0 <= (qpow dl m - dl * qpow dl m) * d)%Q) by (apply Qmult_le_0_compat; lra).
+      assert (Pd2 : (0 <= (1 - dl * qpow dl m) * d)%Q) by (apply Qmult_le_0_compat; lra).
+      destruct Hnear as [Hnear|[j [[w [Hin Hw]] Hnear]]].
+      + assert (IH := IHm i ltac:(lia) Hi Hnear). cbn [qpow]. lra.
+      + unfold T. rewrite nth_dirichlet_step by (rewrite normalize_length; exact Hi).
+        specialize (Hharm i Hi).
+        destruct (nthb border i) eqn:B.
+        * rewrite Hharm. setoid_replace (nthq temps i - nthq temps i)%Q with 0%Q by lra.
+          change (Qabs 0)%Q with 0%Q. cbn [qpow]. lra.
+        * assert (Hnn : forall e, In e (wrow_of adj i) -> fst e < n /\ (0 <= snd e)%Q)
+            by (intros e He; eapply wf_rows_wrow_of; eassumption).
+          assert (Hnorm : (0 < row_norm (wrow_of adj i))%Q) by (apply NS; assumption).
+          assert (St : stochastic_row n (normalize_row (wrow_of adj i))).
+          { apply normalize_row_stochastic; [exact Hnn|lra]. }
+          assert (Hj : j < n) by (apply (Hnn (j, w) Hin)).
+          assert (He0 : In (j, (w / row_norm (wrow_of adj i))%Q) (normalize_row (wrow_of adj i)))
+            by (apply normalize_row_entry; [lra|exact Hin]).
+          assert (Hp : (dl <= w / row_norm (wrow_of adj i))%Q) by (apply (Hdl2 i j w); assumption).
+          assert (Bj : (Qabs (nthq v j - nthq h j) <= (1 - qpow dl m) * d)%Q) by (apply Hb; [lia|exact Hj|exact Hnear]).
+          apply Qabs_Qle_condition in Bj.
+          assert (Hc : ((1 - qpow dl m) * d <= d)%Q) by (assert (0 <= qpow dl m * d)%Q by (apply Qmult_le_0_compat; lra); lra).
+          rewrite Qred_correct, Hharm, wrow_of_normalize, dot_row_sub.
+          apply Qabs_Qle_condition.
+          assert (Eq : (d - dl * (d - (1 - qpow dl m) * d) == (1 - qpow dl (S m)) * d)%Q) by (cbn [qpow]; ring).
+          split.
+          -- pose proof (convex_small_term n (normalize_row (wrow_of adj i))
+                           (fun x => (- (nthq v x - nthq h x))%Q) d ((1 - qpow dl m) * d)%Q dl (j, (w / row_norm (wrow_of adj i))%Q) St) as CS.
+             cbv beta in CS.
+             rewrite (sumq_ext (fun e => snd e * - (nthq v (fst e) - nthq h (fst e)))%Q
+                               (fun e => - (snd e * (nthq v (fst e) - nthq h (fst e))))%Q) in CS by (intros x _; lra).
+             rewrite sumq_opp in CS. rewrite Eq in CS.
+             assert (CS' := CS (fun e He => ltac:(
+               let H := fresh in pose proof (Hd (fst e) (proj1 (proj1 St e He))) as H;
+               apply Qabs_Qle_condition in H; lra)) He0 ltac:(cbn [fst snd]; lra) ltac:(cbn [fst snd]; lra) Hc).
+             lra.
+          -- pose proof (convex_small_term n (normalize_row (wrow_of adj i))
+                           (fun x => (nthq v x - nthq h x)%Q) d ((1 - qpow dl m) * d)%Q dl (j, (w / row_norm (wrow_of adj i))%Q) St) as CS.
+             cbv beta in CS. rewrite Eq in CS.
+             apply CS; [|exact He0|cbn [fst snd]; lra|cbn [fst snd]; lra|exact Hc].
+             intros e He. pose proof (Hd (fst e) (proj1 (proj1 St e He))) as H.
+             apply Qabs_Qle_condition in H. lra.
+  Qed.
+
+  Lemma T_nonexpansive d v : dist_le n v h d -> dist_le n (T v) h d.
+  Proof. intros H. apply dirichlet_step_nonexpansive; assumption. Qed.
+
+  Lemma iter_err_bound d k v :
+    dist_le n v h d -> dist_le n (iterate k T v) h d /\ err_bound d k (iterate k T v).
+  Proof.
+    intros Hd. induction k as [|k [IH1 IH2]].
+    - split; [exact Hd|]. intros m i Hm. lia.
+    - rewrite iterate_S. split; [apply T_nonexpansive; exact IH1|apply step_err_bound; assumption].
+  Qed.
+
+  Lemma iterate_add {A} (f : A -> A) a b x : iterate (a + b) f x = iterate b f (iterate a f x).
+  Proof. revert x; induction a as [|a IH]; intros x; simpl; [reflexivity|apply IH]. Qed.
+
+  Lemma dist_le_weaken u v d1 d2 : (d1 <= d2)%Q -> dist_le n u v d1 -> dist_le n u v d2.
+  Proof. intros H D i Hi. specialize (D i Hi). lra. Qed.
+
+  Context (L : nat).
+  Context (HL : forall i, i < n -> near adj border L i).
+
+  Lemma block_contracts d v :
+    dist_le n v h d -> dist_le n (iterate (S L) T v) h ((1 - qpow dl L) * d).
+  Proof.
+    intros Hd. destruct (iter_err_bound d (S L) v Hd) as [_ E].
+    intros i Hi. apply (E L i); [lia|exact Hi|apply HL; exact Hi].
+  Qed.
+
+  Lemma blocks_contract d v t :
+    dist_le n v h d -> dist_le n (iterate (t * S L) T v) h (qpow (1 - qpow dl L) t * d).
+  Proof.
+    intros Hd. induction t as [|t IH].
+    - simpl. apply (dist_le_weaken _ _ d); [lra|exact Hd].
+    - replace (S t * S L) with (t * S L + S L) by lia. rewrite iterate_add.
+      apply (dist_le_weaken _ _ ((1 - qpow dl L) * (qpow (1 - qpow dl L) t * d))%Q); [simpl; lra|].
+      apply block_contracts. exact IH.
+  Qed.
+
+  Lemma after_blocks d v t k :
+    dist_le n v h d -> t * S L <= k -> dist_le n (iterate k T v) h (qpow (1 - qpow dl L) t * d).
+  Proof.
+    intros Hd Hk. replace k with (t * S L + (k - t * S L)) by lia. rewrite iterate_add.
+    apply (iterate_inv (fun x => dist_le n x h (qpow (1 - qpow dl L) t * d))).
+    - intros x Hx. apply T_nonexpansive. exact Hx.
+    - apply blocks_contract. exact Hd.
+  Qed.
+End Contraction.
+
+Lemma bernoulli s t : (0 < s <= 1)%Q -> (qpow (1 - s) t * (1 + inject_Z (Z.of_nat t) * s) <= 1)%Q.
+Proof.
+  intros Hs. induction t as [|t IH].
+  - simpl. unfold inject_Z. lra.
+  - rewrite inject_nat_S. cbn [qpow].
+    pose proof (qpow_range (1 - s) t ltac:(lra)) as P.
+    assert (T0 : (0 <= inject_Z (Z.of_nat t))%Q) by (change 0%Q with (inject_Z 0); rewrite <- Zle_Qle; lia).
+    set (T := inject_Z (Z.of_nat t)) in *. set (p := qpow (1 - s) t) in *.
+    assert (E : ((1 - s) * p * (1 + (T + 1) * s) == p * (1 + T * s) - p * s * s * (T + 1))%Q) by ring.
+    rewrite E. assert ((0 <= p * s * s * (T + 1))%Q) by (repeat apply Qmult_le_0_compat; lra). lra.
+Qed.
+
+Lemma archimedes (q : Q) : exists t : nat, (q <= inject_Z (Z.of_nat t))%Q.
+Proof.
+  exists (Z.to_nat (Qceiling q)).
+  apply Qle_trans with (inject_Z (Qceiling q)); [apply Qle_ceiling|].
+  rewrite <- Zle_Qle. lia.
+Qed.
+
+Lemma dist_exists n u v : exists d, dist_le n u v d.
+Proof.
+  exists (sumq (map (fun i => Qabs (nthq u i - nthq v i)) (seq 0 n))).
+  intros i Hi.
+  apply (sumq_ge_term (fun i => Qabs (nthq u i - nthq v i)) (seq 0 n) i).
+  - intros x _. apply Qabs_nonneg.
+  - apply in_seq. lia.
+Qed.
+
+Lemma dirichlet_converges_lemma adj border temps h :
+  wf_rows (length adj) adj -> reaches_border adj border ->
+  harmonic adj border temps h ->
+  forall eps, (0 < eps)%Q -> exists N, forall k, N <= k ->
+    dist_le (length adj) (dirichlet_core k adj border temps) h eps.
+Proof.
+  intros W RB Hh eps Heps.
+  pose proof (reaches_no_free_sink adj border W RB) as NS.
+  destruct (min_prob_exists adj W) as [dl Hdl].
+  destruct (all_near adj border RB) as [L HL].
+  destruct (dist_exists (length adj) temps h) as [d0 Hd0].
+  set (d := (Qabs d0)%Q).
+  assert (Hd : dist_le (length adj) temps h d).
+  { intros i Hi. specialize (Hd0 i Hi). pose proof (Qle_Qabs d0). unfold d. lra. }
+  assert (D0 : (0 <= d)%Q) by apply Qabs_nonneg.
+  set (s := qpow dl L).
+  assert (Hs : (0 < s <= 1)%Q).
+  { destruct Hdl as [Hdl1 _]. split; [apply qpow_pos; lra|apply qpow_range; lra]. }
+  destruct (archimedes (d / (eps * s))) as [t Ht].
+  exists (t * S L). intros k Hk.
+  pose proof (after_blocks adj border temps h dl W NS Hh Hdl L HL d temps t k Hd Hk) as A.
+  fold s in A. unfold dirichlet_core.
+  apply (dist_le_weaken adj (iterate k (dirichlet_step (normalize adj) border temps) temps) h
+                        (qpow (1 - s) t * d)%Q eps); [|exact A].
+  pose proof (bernoulli s t Hs) as Bn.
+  pose proof (qpow_range (1 - s) t ltac:(lra)) as P.
+  set (T := inject_Z (Z.of_nat t)) in *. set (p := qpow (1 - s) t) in *.
+  assert (Hes : (0 < eps * s)%Q) by nra.
+  assert (Hd2 : (d <= T * (eps * s))%Q).
+  { assert (E : (d == d / (eps * s) * (eps * s))%Q) by (field; lra). rewrite E.
+    apply Qmult_le_compat_r; [exact Ht|lra]. }
+  assert (H1 : (p * d <= p * (T * (eps * s)))%Q) by nra.
+  assert (H2 : (p * (T * (eps * s)) <= eps * (p * (1 + T * s)))%Q) by nra.
+  assert (H3 : (eps * (p * (1 + T * s)) <= eps)%Q) by nra.
+  lra.
+Qed.
+
+Lemma dirichlet_converges_connected adj border temps h :
+  wf_rows (length adj) adj -> connected adj ->
+  (exists s, s < length adj /\ nthb border s = true) ->
+  harmonic adj border temps h ->
+  forall eps, (0 < eps)%Q -> exists N, forall k, N <= k ->
+    dist_le (length adj) (dirichlet_core k adj border temps) h eps.
+Proof.
+  intros W C S. apply dirichlet_converges_lemma; [exact W|]. apply connected_reaches; assumption.
+Qed.
+
+(** The executable check used by the harness on candidate solutions is sound for [harmonic]. *)
+Lemma harmonic_checkb_sound adj border temps f :
+  harmonic_checkb adj border temps f = true -> harmonic adj border temps f.
+Proof.
+  unfold harmonic_checkb. intros H. apply andb_true_iff in H. destruct H as [HL HF].
+  apply Nat.eqb_eq in HL. split; [exact HL|].
+  intros i Hi. rewrite forallb_forall in HF. specialize (HF i ltac:(apply in_seq; lia)).
+  destruct (nthb border i); apply Qeq_bool_eq in HF; exact HF.
+Qed.
+
+Lemma path_trans adj i j k : path adj i j -> path adj j k -> path adj i k.
+Proof.
+  intros P Q. induction P as [i|i a j E P IH]; [exact Q|].
+  apply (path_step adj i a k E). apply IH. exact Q.
 Qed.
